@@ -546,3 +546,124 @@ impl CryptoRig {
     out
   }
 }
+
+// ---- second strengthening round: several endpoints per participant ----
+// A plugin may own a SECOND endpoint of the same kind and with the same attributes as its first
+// one.  ENTITY ids as in spec/CryptoAbs.tla: plugin p's participant and first endpoint are `p`,
+// its second endpoint is `p + EP2`.  The tables of the rig are indexed by entity id (create the
+// rig with `CryptoRig::new(EP2 + n)`): `ep[p + EP2]` is the handle of the second endpoint,
+// `part[p + EP2]` / `cfg[p + EP2]` repeat those of the plugin; the plugin INSTANCE of an entity is
+// `plugins[entity % EP2]` - `as_entity` puts it at the entity's index while one of the methods
+// above runs, so that second endpoints go through exactly the same code of the rig as first ones.
+//
+// Sending side: the key factory of the crate keeps ONE matched remote endpoint per (local
+// endpoint, remote participant handle) - a second `register_matched_remote_datareader` with the
+// same remote participant handle is refused.  To give each of the two endpoints of a remote
+// participant its own receiver-specific key (what the standard and other vendors do), the sender
+// registers that remote participant once more and matches the second endpoint under the second
+// remote participant handle.  Receiving side: both local endpoints are matched with the remote
+// endpoint under the ONE handle of the remote participant, which is what ordinary use produces.
+pub const EP2: usize = 10;
+
+impl CryptoRig {
+  fn as_entity<T>(&mut self, x: usize, f: impl FnOnce(&mut Self) -> T) -> T {
+    let p = x % EP2;
+    if p == x || x >= self.plugins.len() {
+      return f(self);
+    }
+    self.plugins.swap(p, x);
+    let r = std::panic::catch_unwind(std::panic::AssertUnwindSafe(|| f(self)));
+    self.plugins.swap(p, x);
+    match r {
+      Ok(v) => v,
+      Err(e) => std::panic::resume_unwind(e),
+    }
+  }
+
+  /// the second endpoint `x = p + EP2` of plugin p: register_local_datawriter / _datareader once
+  /// more, same kind and attributes as the first endpoint
+  pub fn reg_local_second(&mut self, x: usize) -> Result<(), String> {
+    let p = x % EP2;
+    if x == p || x >= self.ep.len() {
+      return Err("rig: not a second endpoint".into());
+    }
+    if self.ep[x].is_some() {
+      return Err("rig: already registered".into());
+    }
+    let ph = self.part[p].ok_or("rig: no local participant")?;
+    let c = self.cfg[p].clone().ok_or("rig: no local participant")?;
+    let mut ea = EndpointSecurityAttributes::empty();
+    ea.is_submessage_protected = c.sub > 0;
+    ea.is_payload_protected = c.pay > 0;
+    ea.plugin_endpoint_attributes = mask(
+      (if c.sub == 2 { 0b001 } else { 0 })
+        | (if c.pay == 2 { 0b010 } else { 0 })
+        | (if c.sub_oa { 0b100 } else { 0 }),
+    );
+    let eh = if c.writer {
+      self.plugins[p].register_local_datawriter(ph, &keysize(c.k256), ea)
+    } else {
+      self.plugins[p].register_local_datareader(ph, &keysize(c.k256), ea)
+    }
+    .map_err(|e| format!("{e:?}"))?;
+    self.part[x] = Some(ph);
+    self.ep[x] = Some(eh);
+    self.cfg[x] = Some(c);
+    Ok(())
+  }
+
+  /// the remote participant handle entity p uses when it talks about entity q
+  fn alias_rpart(&mut self, p: usize, q: usize) {
+    let (pp, qp) = (p % EP2, q % EP2);
+    if self.rpart.contains_key(&(p, q)) {
+      return;
+    }
+    if q == qp {
+      // a further local endpoint talks to the remote participant through the plugin's one handle
+      if let Some(h) = self.rpart.get(&(pp, q)).copied() {
+        self.rpart.insert((p, q), h);
+      }
+    } else if let (Some(lp), true) = (self.part.get(pp).copied().flatten(), self.rpart.contains_key(&(pp, qp))) {
+      // the remote participant is known: a handle of its own for its second endpoint (see above)
+      if let Ok(h) = self.plugins[pp].register_matched_remote_participant(
+        lp,
+        1 + qp as u32,
+        1 + qp as u32,
+        secret(pp, qp),
+      ) {
+        self.rpart.insert((p, q), h);
+      }
+    }
+  }
+
+  /// `match_ep` for entities
+  pub fn match_ep_ent(&mut self, p: usize, q: usize) -> Result<(), String> {
+    if !self.rep.contains_key(&(p, q)) {
+      self.alias_rpart(p, q);
+    }
+    self.as_entity(p, |rig| rig.match_ep(p, q))
+  }
+
+  /// `send_tokens` for entities (endpoint level: p creates the tokens meant for entity q, they
+  /// are delivered to entity d)
+  pub fn send_tokens_ent(&mut self, ep_level: bool, p: usize, q: usize, d: usize) -> Result<(), String> {
+    if p % EP2 == d % EP2 {
+      return Err("rig: tokens are moved between plugins".into());
+    }
+    self.as_entity(p, |rig| rig.as_entity(d, |rig| rig.send_tokens(ep_level, p, q, d)))
+  }
+
+  /// `decode` for entities: the plugin of entity r decodes; at submessage level the outcome is
+  /// data iff the endpoint of ENTITY r is among the local endpoints the submessage is released to
+  pub fn decode_ent(&mut self, lvl: u8, r: usize, s: usize, wire: &[u8], frame: u8) -> Outcome {
+    if r % EP2 != r {
+      self.alias_rpart(r, s);
+    }
+    self.as_entity(r, |rig| rig.decode(lvl, r, s, wire, frame))
+  }
+
+  /// `key_ids` for entities
+  pub fn key_ids_ent(&mut self, x: usize) -> KeyIds {
+    self.as_entity(x, |rig| rig.key_ids(x))
+  }
+}
